@@ -6,7 +6,7 @@
    a live layout is what RelEdit.structure reads from its tree. *)
 From V.model Require Import Base RelLex RelParse RelAcc RelGrammar RelGrammarAll.
 From V.model Require Import RelEdit RelEditSpec RelEditTree RelLiveAll.
-From V.proofs Require Import BaseP RelLexP RelEditP RelEditStP RelEditTreeP RelGrammarParseP RelGrammarAccP RelLexInvP.
+From V.proofs Require Import BaseP RelLexP RelEditP RelEditStP RelEditTreeP RelGrammarParseP RelGrammarAccP RelLexInvP RelGrammarAllAccP.
 From V.proofs Require Import RelLiveAllP RelLiveAllStepP RelLiveAllWfP.
 Set Default Timeout 60.
 
@@ -698,4 +698,227 @@ Proof.
   destruct (nseg s0) as [w i] eqn:E0. unfold arender, atoks. cbn [af_lead af_first af_rest]. rewrite rt_app, items_text_flat, app_assoc.
   pose proof (nseg_text s0 G0) as H0. rewrite E0 in H0. cbn [fst snd] in H0. rewrite H0. f_equal.
   clear E. induction G as [|sg ss' Hg _ IH]; [reflexivity|]. cbn [map flat_map]. rewrite IH. now rewrite (nseg_text sg Hg).
+Qed.
+
+(* ------------------------------------------------------------------ norm: the shape the parser needs *)
+Lemma nrel_shape r extra : lrel_ok r = true -> arel_ok (nrel r extra) = true.
+Proof.
+  unfold lrel_ok, arel_ok, nrel. intros H. andb_hyps. cbn [a_name a_qual a_ver a_archs a_profs a_trail]. andb_goal; try apply wsk_ws_toks.
+  - destruct (l_qual r) as [[w q]|]; [|reflexivity]. cbn [inner_ok option_map opt_ok fst snd] in *. andb_hyps.
+    match goal with Hq : qual_in_ok q = true |- _ => unfold qual_in_ok in Hq end. andb_hyps.
+    unfold aqual_ok. cbn [aq_ws0 aq_ws1]. unfold relex. rewrite wsk_ws_toks. now andb_goal.
+  - destruct (l_ver r) as [[w v]|]; [|reflexivity]. cbn [inner_ok option_map opt_ok fst snd] in *. andb_hyps.
+    match goal with Hq : vclause_in_ok v = true |- _ => unfold vclause_in_ok in Hq end. andb_hyps.
+    unfold aver_ok. cbn [av_ws0 av_ws1 av_ws2 av_ws3 av_op av_ver]. unfold relex. rewrite wsk_ws_toks. now andb_goal.
+  - destruct (l_archs r) as [[w g]|]; [|reflexivity]. cbn [inner_ok option_map opt_ok fst snd] in *. andb_hyps.
+    match goal with Hq : group_in_ok g = true |- _ => unfold group_in_ok in Hq end. andb_hyps.
+    unfold agroup_ok. cbn [ag_ws0 ag_atoms ag_ws1]. unfold relex. rewrite wsk_ws_toks. now andb_goal.
+  - rewrite forallb_forall in *. intros x Hx. apply in_map_iff in Hx as ([w g] & <- & Hin).
+    match goal with Hq : forall x, In x (l_profs r) -> _ |- _ => specialize (Hq _ Hin) end. cbn [fst snd] in *.
+    andb_hyps. match goal with Hq : pgroup_in_ok g = true |- _ => unfold pgroup_in_ok in Hq end. andb_hyps.
+    unfold pgroup_ok. cbn [pg_ws0 pg_terms pg_ws1]. unfold relex. rewrite wsk_ws_toks. now andb_goal.
+Qed.
+Lemma nalts_shape alts : forall prev extra, lrel_ok prev = true -> forallb alt_ok alts = true ->
+  arel_ok (fst (nalts prev alts extra)) = true /\ forallb aalt_ok (snd (nalts prev alts extra)) = true.
+Proof.
+  induction alts as [|[[w1 w2] r] rest IH]; intros prev extra Hp Ha; cbn [nalts].
+  - cbn [fst snd forallb]. split; [now apply nrel_shape|reflexivity].
+  - cbn [forallb] in Ha. apply andb_prop in Ha as [Ha1 Ha2]. unfold alt_ok in Ha1. cbn [fst snd] in Ha1. andb_hyps.
+    destruct (IH r extra) as [I1 I2]; try assumption. destruct (nalts r rest extra) as [r' more]. cbn [fst snd forallb] in *.
+    split; [now apply nrel_shape|]. unfold aalt_ok at 1. cbn [fst snd]. unfold relex. now rewrite wsk_ws_toks, I1, I2.
+Qed.
+Lemma nentry_shape b e extra : lentry_ok e = true -> aitem_ok b (nentry e extra) = true.
+Proof.
+  intros H. rewrite lentry_ok_eq in H. andb_hyps. unfold nentry.
+  destruct (nalts_shape (e_alts e) (e_first e) (wstext (e_trail e) ++ extra)) as [I1 I2]; try assumption.
+  destruct (nalts (e_first e) (e_alts e) (wstext (e_trail e) ++ extra)) as [r alts]. cbn [fst snd aitem_ok] in *. now rewrite I1, I2.
+Qed.
+Lemma take_ws_elems b l : forallb (relem_ok b) l = true -> forallb (relem_ok b) (snd (take_ws l)) = true.
+Proof.
+  induction l as [|x r IH]; [auto|]. intros H. destruct x as [w| | |]; try exact H.
+  cbn [forallb relem_ok] in H. apply andb_prop in H as [_ Hr]. specialize (IH Hr). cbn [take_ws]. destruct (take_ws r) as [s r']. exact IH.
+Qed.
+Lemma nseg_shape b sg : forallb (relem_ok b) sg = true -> amore_ok b (nseg sg) = true.
+Proof.
+  intros H. pose proof (take_ws_elems b sg H) as H2. unfold nseg. destruct (take_ws sg) as [w rest]. cbn [fst snd] in *.
+  unfold amore_ok. cbn [fst snd]. rewrite wsk_ws_toks. cbn [andb].
+  destruct rest as [|x r]; [reflexivity|]. cbn [forallb] in H2. apply andb_prop in H2 as [Hx Hr].
+  destruct x as [w0| |e|body]; try reflexivity; cbn [nitem relem_ok] in *.
+  - now apply nentry_shape.
+  - cbn [aitem_ok]. andb_hyps. rewrite wsk_ws_toks. now andb_goal.
+Qed.
+Lemma segments_forall (p : relem -> bool) l : forallb p l = true -> Forall (fun sg => forallb p sg = true) (segments l).
+Proof.
+  induction l as [|x r IH]; [repeat constructor|]. cbn [forallb]. intros H. apply andb_prop in H as [Hx H0]. specialize (IH H0).
+  destruct (is_rc x) eqn:Ex.
+  - destruct x; try discriminate. cbn [segments]. constructor; [reflexivity|exact IH].
+  - destruct (segments_cons x r Ex) as (s & ss & E1 & E2). rewrite E2. rewrite E1 in IH. inversion IH; subst.
+    constructor; [|assumption]. cbn [forallb]. now andb_goal.
+Qed.
+Theorem ashape_norm b l : lwf b l = true -> ashape b (norm l) = true.
+Proof.
+  intros H. destruct (lwf_split _ _ H) as (Hok & _). pose proof (segments_forall _ _ Hok) as HF.
+  unfold norm. destruct (segments l) as [|s0 ss]; [reflexivity|]. inversion HF as [|? ? H0 Hs]; subst. cbn [map].
+  pose proof (nseg_shape b s0 H0) as Hn. destruct (nseg s0) as [w i]. unfold amore_ok in Hn. cbn [fst snd] in Hn. andb_hyps.
+  unfold ashape. cbn [af_lead af_first af_rest]. andb_goal; auto.
+  clear HF. induction Hs as [|sg ss' Hsg _ IH]; [reflexivity|]. cbn [map forallb]. now rewrite (nseg_shape b sg Hsg), IH.
+Qed.
+
+(* ------------------------------------------------------------------ the content of a liberal layout, and norm / live_of keep it *)
+Definition arel_cont (r : arel) : relrec :=
+  mk_relrec (a_name r) (option_map aq_name (a_qual r))
+            (match a_ver r with Some v => ver_content v | None => None end)
+            (option_map (fun g => arch_names (children (agroup_node g)) false) (a_archs r))
+            (map (fun g => profile_group (children (pgroup_node g)) [] false) (a_profs r)).
+Definition aitem_conts (i : aitem) : list (list relrec) :=
+  match i with AEntry r alts => [arel_cont r :: map (fun wr => arel_cont (snd wr)) alts] | _ => [] end.
+Definition aitem_substs (i : aitem) : list str := match i with ASubst body _ => [text (subst_node body)] | _ => [] end.
+Definition acont (g : afield) : lfield * list str :=
+  (flat_map aitem_conts (af_items g), flat_map aitem_substs (af_items g)).
+
+Lemma lrel_content_of r last : lrel_content (lrel_of r last) = arel_cont r.
+Proof.
+  unfold lrel_content, lrel_of, arel_cont. cbn [l_name l_qual l_ver l_archs l_profs]. f_equal.
+  - now destruct (a_qual r).
+  - now destruct (a_ver r).
+  - now destruct (a_archs r).
+  - rewrite map_map. reflexivity.
+Qed.
+Lemma lalts_content alts : forall r last,
+  map (fun a => lrel_content (snd a)) (fst (lalts_of r alts last)) = map (fun wr => arel_cont (snd wr)) alts.
+Proof.
+  induction alts as [|[w r'] alts' IH]; intros r last; [reflexivity|]. cbn [lalts_of]. specialize (IH r' last).
+  destruct (lalts_of r' alts' last) as [rest trail]. cbn [fst snd map] in *. now rewrite IH, lrel_content_of.
+Qed.
+Lemma lentry_content_of r alts last :
+  lentry_content (lentry_of r alts last) = arel_cont r :: map (fun wr => arel_cont (snd wr)) alts.
+Proof.
+  unfold lentry_of. pose proof (lalts_content alts r last) as H. destruct (lalts_of r alts last) as [la trail].
+  unfold lentry_content. cbn [e_first e_alts fst] in *. now rewrite lrel_content_of, H.
+Qed.
+Lemma rws_entries s : flat_map relem_entries (rws s) = [].
+Proof. unfold rws. induction (wsl_of s) as [|a l IHl]; [reflexivity|]. exact IHl. Qed.
+Lemma rws_substs s : flat_map relem_substvars (rws s) = [].
+Proof. unfold rws. induction (wsl_of s) as [|a l IHl]; [reflexivity|]. exact IHl. Qed.
+Lemma litem_content i last :
+  flat_map relem_entries (litem_of i last) = aitem_conts i /\ flat_map relem_substvars (litem_of i last) = aitem_substs i.
+Proof.
+  destruct i as [r alts|body trail|]; cbn [litem_of aitem_conts aitem_substs flat_map relem_entries relem_substvars app].
+  - now rewrite rws_entries, rws_substs, lentry_content_of.
+  - now rewrite rws_entries, rws_substs.
+  - auto.
+Qed.
+Lemma litems_content more : forall i,
+  flat_map relem_entries (litems_of i more) = flat_map aitem_conts (i :: map snd more) /\
+  flat_map relem_substvars (litems_of i more) = flat_map aitem_substs (i :: map snd more).
+Proof.
+  induction more as [|[w i'] more IH]; intros i; cbn [litems_of map snd]; rewrite !flat_map_app.
+  - destruct (litem_content i (is_nil (@nil (list rtoken * aitem)))) as [-> ->]; cbn [flat_map]. now rewrite !app_nil_r.
+  - destruct (litem_content i (is_nil ((w, i') :: more))) as [-> ->]; cbn [flat_map].
+    destruct (IH i') as [H1 H2]. cbn [relem_entries relem_substvars app]. rewrite !flat_map_app, rws_entries, rws_substs, H1, H2.
+    split; reflexivity.
+Qed.
+Theorem lcontent_live_of g : lcontent (live_of g) = acont g.
+Proof.
+  unfold lcontent, live_of, acont, af_items. rewrite !flat_map_app, rws_entries, rws_substs.
+  destruct (litems_content (af_rest g) (af_first g)) as [-> ->]. reflexivity.
+Qed.
+
+Lemma rel_content_nrel r extra : arel_cont (nrel r extra) = lrel_content r.
+Proof.
+  unfold arel_cont, nrel, lrel_content. cbn [a_name a_qual a_ver a_archs a_profs]. f_equal.
+  - now destruct (l_qual r) as [[w q]|].
+  - destruct (l_ver r) as [[w v]|]; reflexivity.
+  - now destruct (l_archs r) as [[w g]|].
+  - rewrite map_map. reflexivity.
+Qed.
+Lemma nalts_content alts : forall prev extra,
+  arel_cont (fst (nalts prev alts extra)) :: map (fun wr => arel_cont (snd wr)) (snd (nalts prev alts extra))
+  = lrel_content prev :: map (fun a => lrel_content (snd a)) alts.
+Proof.
+  induction alts as [|[[w1 w2] r] rest IH]; intros prev extra; cbn [nalts].
+  - cbn [fst snd map]. now rewrite rel_content_nrel.
+  - specialize (IH r extra). destruct (nalts r rest extra) as [r' more]. cbn [fst snd map] in *. now rewrite rel_content_nrel, IH.
+Qed.
+Lemma item_entries_nentry e extra : aitem_conts (nentry e extra) = [lentry_content e] /\ aitem_substs (nentry e extra) = [].
+Proof.
+  unfold nentry. pose proof (nalts_content (e_alts e) (e_first e) (wstext (e_trail e) ++ extra)) as H.
+  destruct (nalts (e_first e) (e_alts e) (wstext (e_trail e) ++ extra)) as [r alts]. cbn [fst snd aitem_conts aitem_substs] in *.
+  now rewrite H.
+Qed.
+Lemma all_ws_content r : forallb is_rw r = true -> flat_map relem_entries r = [] /\ flat_map relem_substvars r = [].
+Proof. induction r as [|x r IH]; [auto|]. cbn [forallb]. intros H. andb_hyps. destruct x; try discriminate. now apply IH. Qed.
+Lemma take_ws_content l : flat_map relem_entries l = flat_map relem_entries (snd (take_ws l)) /\
+                          flat_map relem_substvars l = flat_map relem_substvars (snd (take_ws l)).
+Proof.
+  induction l as [|x r IH]; [auto|]. destruct x; try (split; reflexivity). cbn [take_ws]. destruct (take_ws r) as [s r']. exact IH.
+Qed.
+Lemma nseg_content sg : seg_good false sg ->
+  aitem_conts (snd (nseg sg)) = flat_map relem_entries sg /\ aitem_substs (snd (nseg sg)) = flat_map relem_substvars sg.
+Proof.
+  intros H. pose proof (good_shape sg H) as Hs. destruct (take_ws_content sg) as [-> ->]. unfold nseg.
+  destruct (take_ws sg) as [w rest]. cbn [fst snd] in *.
+  destruct Hs as [|x r Hx Hr]; [auto|]. destruct (all_ws_content r Hr) as [R1 R2].
+  destruct x as [w0| |e|body]; try discriminate; cbn [nitem flat_map relem_entries relem_substvars]; rewrite R1, R2.
+  - apply item_entries_nentry.
+  - auto.
+Qed.
+Lemma segments_content l : forall s0 ss, segments l = s0 :: ss ->
+  flat_map relem_entries l = flat_map (flat_map relem_entries) (s0 :: ss) /\
+  flat_map relem_substvars l = flat_map (flat_map relem_substvars) (s0 :: ss).
+Proof.
+  induction l as [|x r IH]; intros s0 ss E.
+  - cbn in E. injection E as <- <-. auto.
+  - destruct (is_rc x) eqn:Ex.
+    + destruct x; try discriminate. cbn [segments] in E. injection E as <- <-.
+      destruct (segments r) as [|s1 ss1] eqn:E1.
+      * exfalso. destruct r as [|y r']; [discriminate|]. cbn [segments] in E1. destruct y; try discriminate; destruct (segments r'); discriminate.
+      * destruct (IH _ _ eq_refl) as [I1 I2]. cbn [flat_map relem_entries relem_substvars app] in *. auto.
+    + destruct (segments_cons x r Ex) as (s & ss' & E1 & E2). rewrite E2 in E. injection E as <- <-.
+      destruct (IH _ _ E1) as [I1 I2]. cbn [flat_map] in *. rewrite I1, I2, <- !app_assoc. auto.
+Qed.
+Theorem acont_norm b l : lwf b l = true -> acont (norm l) = lcontent l.
+Proof.
+  intros H. destruct (lwf_split _ _ H) as (_ & s & Hs). destruct (segments_good l false s Hs) as (s0 & ss & E & G0 & G).
+  unfold lcontent. destruct (segments_content l s0 ss E) as [-> ->]. unfold norm. rewrite E. cbn [map].
+  destruct (nseg_content s0 G0) as [H1 H2]. destruct (nseg s0) as [w i]. cbn [snd] in *.
+  unfold acont, af_items. cbn [af_first af_rest flat_map]. rewrite H1, H2. rewrite map_map.
+  assert (HG : flat_map aitem_conts (map (fun x => snd (nseg x)) ss) = flat_map (flat_map relem_entries) ss /\
+               flat_map aitem_substs (map (fun x => snd (nseg x)) ss) = flat_map (flat_map relem_substvars) ss).
+  { clear E. induction G as [|sg ss' Hg _ IH]; [auto|]. destruct IH as [I1 I2]. destruct (nseg_content sg Hg) as [K1 K2].
+    cbn [map flat_map]. now rewrite I1, I2, K1, K2. }
+  destruct HG as [-> ->]. reflexivity.
+Qed.
+
+(* the operators stay readable *)
+Lemma nrel_ops r extra : arel_opsok (nrel r extra) = rel_ops r.
+Proof. unfold arel_opsok, nrel, rel_ops. cbn [a_ver]. destruct (l_ver r) as [[w v]|]; reflexivity. Qed.
+Lemma nalts_ops alts : forall prev extra,
+  arel_opsok (fst (nalts prev alts extra)) && forallb (fun wr => arel_opsok (snd wr)) (snd (nalts prev alts extra))
+  = rel_ops prev && forallb (fun a => rel_ops (snd a)) alts.
+Proof.
+  induction alts as [|[[w1 w2] r] rest IH]; intros prev extra; cbn [nalts].
+  - cbn [fst snd forallb]. now rewrite nrel_ops.
+  - specialize (IH r extra). destruct (nalts r rest extra) as [r' more]. cbn [fst snd forallb] in *. now rewrite nrel_ops, IH.
+Qed.
+Lemma nentry_ops e extra : lentry_ok e = true -> aitem_opsok (nentry e extra) = true.
+Proof.
+  intros H. unfold nentry. pose proof (nalts_ops (e_alts e) (e_first e) (wstext (e_trail e) ++ extra)) as Hn.
+  destruct (nalts (e_first e) (e_alts e) (wstext (e_trail e) ++ extra)) as [r alts]. cbn [fst snd aitem_opsok] in *. rewrite Hn.
+  andb_goal; [apply lrel_ok_acc, (lentry_ok_rels e); [exact H|now left]|].
+  rewrite forallb_forall. intros a Ha. apply lrel_ok_acc, (lentry_ok_rels e); [exact H|]. right. now apply in_map.
+Qed.
+Lemma nseg_ops b sg : forallb (relem_ok b) sg = true -> aitem_opsok (snd (nseg sg)) = true.
+Proof.
+  intros H. pose proof (take_ws_elems b sg H) as H2. unfold nseg. destruct (take_ws sg) as [w rest]. cbn [fst snd] in *.
+  destruct rest as [|x r]; [reflexivity|]. cbn [forallb] in H2. apply andb_prop in H2 as [Hx Hr].
+  destruct x as [w0| |e|body]; try reflexivity. cbn [nitem relem_ok] in *. now apply nentry_ops.
+Qed.
+Theorem opsok_norm b l : lwf b l = true -> afield_opsok (norm l) = true.
+Proof.
+  intros H. destruct (lwf_split _ _ H) as (Hok & _). pose proof (segments_forall _ _ Hok) as HF.
+  unfold norm. destruct (segments l) as [|s0 ss]; [reflexivity|]. inversion HF as [|? ? H0 Hs]; subst. cbn [map].
+  pose proof (nseg_ops b s0 H0) as Hn. destruct (nseg s0) as [w i]. cbn [snd] in Hn.
+  unfold afield_opsok, af_items. cbn [af_first af_rest forallb]. rewrite Hn. cbn [andb].
+  clear HF. induction Hs as [|sg ss' Hsg _ IH]; [reflexivity|]. cbn [map forallb]. now rewrite (nseg_ops b sg Hsg), IH.
 Qed.
